@@ -157,7 +157,19 @@ class Unit:
             self.emit(ln, fn=fnname, obl=cur)
 
     # -- rewriting --------------------------------------------------------
+    @staticmethod
+    def _bytestr(m):
+        raw = m.group(2)
+        val = bytes(raw, 'utf-8').decode('unicode_escape').encode('latin-1')
+        if len(val) != int(m.group(1)):
+            raise Undecided('byte string literal length mismatch')
+        return '[u8; %s] = [%s]' % (m.group(1), ', '.join('%du8' % b for b in val))
+
     def apply_rules(self, text, rec, subs):
+        # R19: byte-string constant -> array of its bytes (computed here)
+        text, n = re.subn(r'&\[u8; (\d+)\] = b"((?:[^"\\]|\\.)*)"', self._bytestr, text)
+        if n:
+            rec.rewrites.append(dict(rule='R19', what='byte-string literal -> byte array', count=n))
         for rule, rx, repl, note in GLOBAL_RULES:
             text, n = re.subn(rx, repl, text)
             if n:
